@@ -2,9 +2,9 @@ import OpcuaModel.Base.Loop
 import OpcuaModel.Model.CfgAliasFacts
 /-
   Driver for C23.
-    run ((c | cx) | w <path> <valueHex> | r <path> (u<N> | fresh))*
+    run ((c | cx) | w <path> <valueHex> | r <path> (u<N> | v<N> | fresh))*
   `c` starts the next client (`cx`: its construction fails after the options ran â€” not reported); `w` = an option assigns the selector path (components joined by '.'),
-  `r` = an option replaces the pointer at the path by a caller-supplied object u<N> or a fresh one.
+  `r` = an option replaces the pointer at the path by a caller-supplied object u<N>, an object of the Option value v<N>, or a fresh one.
   Answer: every (client, path) whose effective value at the end of the program differs from the
   pristine default, and every cell of a package-level object that differs from its pristine
   content, as `<k>:<path>=<valueHex>` / `<global>:<path>=<valueHex>`, sorted; `-` if none.
@@ -27,9 +27,11 @@ def parseProg : List String â†’ List (Bool Ã— List Step) â†’ Bool Ã— List Step â
     | some s => parseProg rest acc (cur.1, cur.2 ++ [.write (parsePath p) s])
     | none => none
   | "r" :: p :: t :: rest, acc, cur =>
-    if t = "fresh" then parseProg rest acc (cur.1, cur.2 ++ [.redirect (parsePath p) none])
+    if t = "fresh" then parseProg rest acc (cur.1, cur.2 ++ [.redirect (parsePath p) .fresh])
     else match (t.drop 1).toNat? with
-      | some u => parseProg rest acc (cur.1, cur.2 ++ [.redirect (parsePath p) (some u)])
+      | some n =>
+        let tgt := if t.startsWith "v" then Target.value n else Target.user n
+        parseProg rest acc (cur.1, cur.2 ++ [.redirect (parsePath p) tgt])
       | none => none
   | _, _, _ => none
 
